@@ -233,6 +233,31 @@ def corruption_selftest(res, limit=10):
     return out
 
 
+ORDER_VARIANTS = {
+    # the same model declared in another order / in two steps: V(P) is unchanged, the verdicts must be too
+    "early-solver": {"early_solver": True},    # SchedulingSolver(problem) first, the model afterwards, then solve()
+    "two-phase": {"two_phase": True},          # declare a part, solve it, complete the model, NEW solver
+    "interleaved": {"interleave": True},       # a (vacuous) resource constraint declared between two requirements
+}
+
+
+def order_variants(problems, rng, per_variant):
+    """Copies of a stratified sample of the problems, built in another declaration order."""
+    out = []
+    for name, bk in ORDER_VARIANTS.items():
+        cands = [p for p in problems if not p.get("_opts") and (name != "interleaved" or p["user_horizon"])]
+        if name == "two-phase":
+            cands = [p for p in cands if len({r["task"] for r in p["reqs"]} | {o["task"] for bf in p["buffers"] for o in bf["ops"]}) >= 2]
+        if name == "interleaved":
+            cands = [p for p in cands if sum(1 for r in p["reqs"] if r["type"] == "worker") >= 2]
+        for p in F_tasks.sample(rng, cands, per_variant) if len(cands) > per_variant else cands:
+            q = json.loads(json.dumps(p))
+            q["variant"] = name
+            q["_opts"] = {"build_kw": dict(bk)}
+            out.append(q)
+    return out
+
+
 def encoding_runner(prop, family, directions, opts=None, audits=(), large=frozenset(), mixed=()):
     def run(tier, seed, replay=None, procs=16):
         if replay:
@@ -246,7 +271,9 @@ def encoding_runner(prop, family, directions, opts=None, audits=(), large=frozen
                 extra = []
                 for focus in mixed:
                     extra += F_mixed.fam_mixed(tier, seed, focus, n=None if len(mixed) == 1 else (80 if tier == "thorough" else 12))
-                problems = F_tasks.number([json.loads(json.dumps(q)) for q in problems + extra])
+                problems = problems + extra
+            problems = problems + order_variants(problems, random.Random(f"order-{prop}-{seed}"), 60 if tier == "thorough" else 14)
+            problems = F_tasks.number([json.loads(json.dumps(q)) for q in problems])
         o = dict(opts or {})
         o["seed"] = seed
         if tier == "thorough":
